@@ -1,4 +1,5 @@
 import Tahoe.Mutable.ContentLemmas
+import Tahoe.Mutable.HandleLemmas
 import Tahoe.Generated.Mutpublish
 /-! C09 — mutable files read back what one writer wrote (property theorems; helper lemmas are in
     `Tahoe/Mutable/ContentLemmas.lean`, the model in `Tahoe/Mutable/Content.lean`).
@@ -6,7 +7,7 @@ import Tahoe.Generated.Mutpublish
     As built: the model describes the code as repaired in /repo — b67174d (`Publish.update` takes the old length
     from the version, fixes/C09-update-stale-node-size.diff), 2a6f1c2 (SDMF update beyond EOF zero-fills,
     fixes/C09-sdmf-update-past-eof.diff), 6586d18 (a second `update()` through one version object applies to the
-    version the first one published, fixes/C09-update-twice-stale-version.diff).  14 theorems, none `_partial`.
+    version the first one published, fixes/C09-update-twice-stale-version.diff).  16 theorems, none `_partial`.
     `WF cfg v` says that the version was published by a
     client with configuration `cfg` (segment size = `next_multiple(DEFAULT_MUTABLE_MAX_SEGMENT_SIZE | len, k)`);
     it is established by `create` and preserved by every operation (`history_refines_bytes` carries it).
@@ -28,7 +29,7 @@ import Tahoe.Generated.Mutpublish
     | quantifier "every server response ordering" (schedules) | correspondence only: the model abstracts publish/servermap networking ("publish succeeded ⇒ shares hold the version", C47/C11); the harness runs every history under a seeded random/fifo/lifo delivery order |
     | hash-tree reshaping at power-of-two segment counts, FEC, AES, share layout | correspondence only (reads on the grid validate block/share hash trees and decode real shares); the model keeps per-segment plaintext and the decoder's padding only |
     | which of the two fetched boundary segments is `_start` and which is `_end` (`ServermapUpdater._got_results` → `_got_update_results_one_share` → `ServerMap.update_data` → `_decode_and_decrypt_segments` → `Retrieve.decode`) | `boundary_segments_paired` (the modelled step: `fetchShare`, `gotUpdateResults`, `recordUpdate`, `selectDatum`, `boundaryMaps`, `decodeFetched`; `mdmfUpdate` now goes through it, so `update_is_splice` / `history_refines_bytes` depend on it), arithmetic of the pair: `updater_and_publisher_agree`. Tie: driver op `ud` against the real `_got_update_results_one_share` + `_decode_and_decrypt_segments` + `Retrieve.decode` on real zfec blocks (entries in arrival order, stale versions, duplicates, conflicts, too few shares), and the order of the gathered list in `_got_results` by the many-segment corpus histories (pairs {7,8}, {5,8}, {1,8}, {6,9}, {15,16}, …). Not modelled: block hashes / salts, shares answering with different versions at once |
-    | operations through a reused `MutableFileVersion` object (`mv = get_best_mutable_version(); mv.update(..); mv.update(..)`, also mixed with `mv.overwrite/modify/read`) | modelled as: a version object is only a handle to the node; every operation of a history (`Op`, `step`, `run`) applies to the node's **current** best version, which is what the code does since 6586d18 (`_update` re-pins `self._version` to the version the previous publish through the object recorded; overwrite/modify always use the object's updated servermap). So `history_refines_bytes` / `history_reads_refine` are the claim for reused objects too; the handle itself (its cached servermap) is not in the model. Tie: histories with `pin`/`held` ops are run on the real code and map to the same driver tokens as operations through fresh objects. Monitor + correspondence only: reads *through* the reused object (a pinned version: may show any content since the pin, or refuse with KeyError), and an object overtaken by a change made through another object (the code refuses with UncoordinatedWriteError / IndexError / AssertionError depending on its cached servermap; monitored, not compared) |
+    | operations through a reused `MutableFileVersion` object (`mv = get_best_mutable_version(); mv.update(..); mv.update(..)`, also mixed with `mv.overwrite/modify/read`) | `held_object_refines`, `held_object_invariant` over the executable model `Tahoe/Mutable/Handle.lean` (the object = pinned version + its servermap's best; `update` and `modify` re-pin, `overwrite` does not; read = bytes while pinned = best, KeyError after a publish through the object, empty range / range refusal decided against the pinned version first): mutators through the object ≡ the node-level `step` (so `history_refines_bytes` / `history_reads_refine` cover them), reads through it return the current bytes or nothing. Tie: histories with `pin`/`held` ops map to the driver tokens `p`, `hu:` `ho:` `hm:` `hr:` and every outcome incl. `err:key` is compared. Still monitor only: an object overtaken by a change made through another object (what the code refuses — UncoordinatedWriteError / IndexError / AssertionError — or which cached old bytes a read shows depends on its cached servermap/proxies; `HInv` excludes it) |
     | stale `node.get_size()` (the defect repaired by the fix diff) | monitor + correspondence (the model has no node-level cache: it takes the length from the version, as the repaired code does) | -/
 namespace Tahoe.C09
 open Tahoe.Mutable.Content
@@ -325,6 +326,47 @@ theorem history_reads_refine (cfg : Cfg) (hk : 0 < cfg.k) (hm : 0 < cfg.maxSeg) 
 example : (run ⟨2, 4⟩ none [.create .mdmf [1, 2, 3, 4, 5], .update 5 [6, 7, 8, 9], .update 2 [0, 0, 0]])[2]?.map
       (fun r => (r.1, r.2.map (fun v => (read 2 v 3 (some 5)).toOption)))
     = some (true, some (some [0, 0, 6, 7, 8])) := by decide
+
+/-- **A reused version object stays in step with the grid.**  Starting from a freshly obtained object (or any
+    state in which the object's servermap best is the version on the grid), after every history of operations
+    through the object — `update` (re-pins, 6586d18), `overwrite`, `modify` (re-pins), `read`, re-`pin` — its
+    servermap's best version is still the version on the grid, and if it is pinned to that version its pinned
+    verinfo is that version's. -/
+theorem held_object_invariant (cfg : Cfg) (ops : List HOp) (s : HState) (inv : HInv s) :
+    ∀ r ∈ hrun cfg s ops, HInv r.1 :=
+  hrun_inv cfg ops s inv
+
+/-- **Operations through a reused version object refine the node-level operations.**  While the object is not
+    overtaken (`HInv`): a mutator through it has exactly the outcome (`.ok` / the same refusal) and the resulting
+    file of the same operation on the node's current version (`step`, hence `history_refines_bytes` applies); a
+    read through it, while it is pinned to the servermap's best version, returns exactly the current file's range
+    (or the same range refusal); and after a publish through it (pinned ≠ best) a read never returns any byte:
+    it answers an empty range, refuses the range, or raises KeyError — until `update`/`modify`/`pin` re-pin it. -/
+theorem held_object_refines (cfg : Cfg) (s : HState) (op : HOp) (inv : HInv s) :
+    (∀ p, op.plain = some p →
+      match step cfg (some s.file) p with
+      | .ok st' => st' = some (hstep cfg s op).1.file ∧ (hstep cfg s op).2 = .ok
+      | .error e => (hstep cfg s op).1.file = s.file ∧ (hstep cfg s op).2 = .refused e)
+    ∧ (∀ off size?, op = .read off size? →
+        (hstep cfg s op).1 = s
+        ∧ (s.h.pinned = s.seq → (hstep cfg s op).2
+            = match Mutable.Content.read cfg.k s.file off size? with | .ok b => .bytes b | .error e => .refused e)
+        ∧ (s.h.pinned ≠ s.seq → ∀ b, (hstep cfg s op).2 = .bytes b → b = [])) := by
+  refine ⟨fun p hp => hstep_file cfg s op p hp inv, ?_⟩
+  intro off size? h; subst h
+  exact ⟨hstep_read_state cfg s off size?, (hstep_read cfg s off size? inv).1, (hstep_read cfg s off size? inv).2⟩
+
+-- update → read (KeyError) → no-op modify (re-pins) → read (current bytes) → overwrite → read (KeyError) → empty range
+example : (let v : Version := ⟨.mdmf, 4, [1, 2, 3, 4, 5]⟩
+    (hrun ⟨2, 4⟩ { seq := 0, file := v, h := ⟨0, v, 0, v⟩ }
+      [.update 3 [9], .read 0 none, .modify (fun _ => none), .read 1 (some 3), .overwrite [7, 8], .read 0 none,
+       .read 0 (some 0)]).map
+      (fun r => match r.2 with
+        | .bytes b => some b | .keyError => some [255] | _ => none))
+    = [none, some [255], none, some [2, 3, 9], none, some [255], some []] := rfl
+
+example : HInv (let v : Version := ⟨.mdmf, 4, [1, 2, 3, 4, 5]⟩; { seq := 0, file := v, h := ⟨0, v, 0, v⟩ }) :=
+  ⟨rfl, rfl, Nat.le_refl _, fun _ => rfl⟩
 
 /-- a whole-file publish (create / overwrite / changed modify) stores exactly the new bytes -/
 theorem publish_stores_data (cfg : Cfg) (fmt : Fmt) (data : Bytes) (hk : 0 < cfg.k) (hm : 0 < cfg.maxSeg) :
